@@ -611,13 +611,14 @@ func compScenarios(a map[string]string) *compScenario {
 		for i := 0; i < k; i++ {
 			params = append(params, fmt.Sprintf("p%d", i))
 		}
+		nlFinal := a["newline"] != "0" // "0": the last line of params.txt has no final newline
 		return &compScenario{
-			desc: fmt.Sprintf("sources/items=%d", k),
+			desc: fmt.Sprintf("sources/items=%d/final-newline=%v", k, nlFinal),
 			setup: func() {
 				for _, f := range files {
 					os.WriteFile(f, []byte(f), 0644)
 				}
-				writeLines("params.txt", k, true)
+				writeLines("params.txt", k, nlFinal)
 			},
 			build: func(wf *sp.Workflow) {
 				fs := components.NewFileSource(wf, "fsrc", files...)
